@@ -72,6 +72,7 @@ const c23Contract = `access(all) contract N {
     access(all) fun setD(_ k: Int, _ v: [Int]?) { self.d[k] = v }
     access(all) fun pushInner(_ x: Box) { self.inner.append(x) }
     access(all) fun popInner() { if self.inner.length > 0 { self.inner.removeLast() } }
+    access(all) fun clearInner() { self.inner = [] }
     access(all) fun b0AppendAll(_ xs: [Int]) { if self.b.length > 0 { self.b[0].appendAll(xs) } }
   }
   access(all) fun mkColl(_ n: Int, _ t: Int): @Coll { return <- create Coll(n, t) }
@@ -142,6 +143,7 @@ var c23CollOps = map[string]string{
 	"putItemBig":      `r.putFront(<- N.mkItem(51, 150))`,
 	"putMapReplace":   `r.putMap(0, <- N.mkItem(60, 2))`,
 	"putMapNew":       `r.putMap(1000, <- N.mkItem(61, 2))`,
+	"putMapBig":       `r.putMap(5, <- N.mkItem(52, 150))`,
 	"setOptSmall":     `r.setOpt(<- N.mkColl(1, 1))`,
 	"setOptBig":       `r.setOpt(<- N.mkColl(40, 3))`,
 	"takeOptDestroy":  `let x <- r.takeOpt(); destroy x`,
@@ -172,6 +174,7 @@ var c23BoxOps = map[string]string{
 	"pushInner":   `r.pushInner(N.Box(3, 3))`,
 	"pushInnerBig": `r.pushInner(N.Box(150, 40))`,
 	"popInner":    `r.popInner()`,
+	"clearInner":  `r.clearInner()`,
 }
 
 // c23Source returns the transaction for an operation label, or "" if the
